@@ -116,6 +116,20 @@ def check_sat(assumptions, timeout_ms=QUICK_TIMEOUT_MS, want_model=True, try_fal
     return res, backend, model, ms, smt2
 
 
+def _has_quantifier(e):
+    seen = set()
+    stack = [e]
+    while stack:
+        x = stack.pop()
+        if x.get_id() in seen:
+            continue
+        seen.add(x.get_id())
+        if z3.is_quantifier(x):
+            return True
+        stack.extend(x.children())
+    return False
+
+
 class Registry(object):
     """Collects named obligations of one check run."""
 
@@ -156,7 +170,13 @@ class Registry(object):
         """Reachability (vacuity) obligation: pc must be satisfiable."""
         ob = Obligation(self.unique(name), "cover", func, lineno)
         ob.expect = "sat"
-        res, backend, model, ms, _ = check_sat(list(pc), self.timeout_ms, want_model=False)
+        res, backend, model, ms, _ = check_sat(list(pc), min(self.timeout_ms, 5000), want_model=False, try_fallbacks=False)
+        if res == "unknown":
+            # model finding under quantified hypotheses is incomplete: fall back to the quantifier-free part of the path condition
+            qf = [a for a in pc if not _has_quantifier(a)]
+            res2, backend2, _, ms2, _ = check_sat(qf, self.timeout_ms, want_model=False, try_fallbacks=False)
+            res, backend, ms = res2, backend2 + " (quantifier-free part)", ms + ms2
+            ob.detail = "full path condition: unknown within 5 s; quantifier-free part: %s" % res2
         ob.result, ob.backend, ob.ms = res, backend, ms
         self.obligations.append(ob)
         return ob
